@@ -434,6 +434,25 @@ decl("deepdefaults", _SRC26, {"Top26": lambda ch, u: _b(u.byte()) + _opt26(ch, u
 decl("deepdefaultsfunc", "def make27():\n" + "".join("    " + l + "\n" if l else "\n" for l in _SRC26.replace("26", "27").split("\n")) + "make27()\n",
      {"Top27": lambda ch, u: _b(u.byte()) + _opt26(ch, u) + _opt26(ch, u) + _lst26(ch, u) + _opt26(ch, u)}, func=True)
 
+# 28  a repeated Ref whose selector returns a field for some packets and a packet for others
+decl("mixedseq", """
+class E28(Packet):
+    __bisturi__ = OPT
+    k = Int(1)
+    v = Data(k)
+
+class Mix28(Packet):
+    __bisturi__ = OPT
+    type = Int(1, default=1)
+    n = Int(1)
+    items = Ref(type.chooses({1: Int(1), 2: E28(), 3: Data(2)}), default=0).repeated(n)
+    t = Int(1)
+REG['E28'] = E28
+REG['Mix28'] = Mix28
+""", {"Mix28": lambda ch, u: (lambda ty, n: _b(ty, n) + b"".join(
+        (_b(u.byte()) if ty == 1 else (lambda k: _b(k) + u.bytes(k))(ch.draw("k", 3)) if ty == 2 else u.bytes(2)) for _ in range(n)) + _b(u.byte()))(
+            1 + ch.draw("type", 3), ch.draw("n", 3))})
+
 
 BY_NAME = {d["name"]: d for d in POOL}
 
